@@ -86,6 +86,8 @@ def check_case(case, stats=None):
         stats.classes["registers=%02d" % res["num_registers"]] += 1
         if any(ord(ch) > 127 for ch in res["code"]):
             stats.classes["non-ascii-in-output"] += 1
+        if len(srcs) > 1:
+            stats.classes["library-modules"] += 1
         if nl >= 2 and res["num_registers"] >= 1:
             stats.nontrivial.add(sha([srcs, opts])[:16])
             stats.sample({"source": srcs[""], "options": opts, "reported": detail["reported"]}, limit=2)
@@ -93,8 +95,14 @@ def check_case(case, stats=None):
 
 @st.composite
 def cases(draw):
-    k = draw(st.integers(0, 11))
-    if k == 0:
+    k = draw(st.integers(0, 13))
+    if k >= 12:
+        # programs split over library modules (module-level state, functions that only touch globals)
+        from . import c13
+        m = draw(c13.cases())
+        A, _ = c13.render(m)
+        c = {"src": A, "features": ["library-modules"]}
+    elif k == 0:
         c = {"src": {"": DEGENERATE[draw(st.integers(0, len(DEGENERATE) - 1))]}}
     elif k <= 7:
         c = draw(programs.program_cases(programs.Cfg(call_bias=10), nenv=0))
